@@ -208,6 +208,34 @@ def run(rep):
                     rep.check(r[0] == kr[0] and r[1].rsplit('.', 1)[0] == kr[1].rsplit('.', 1)[0], 'C11.R2.element-fields', f'{key}:same-resource-binding', B.where(bb),
                               f'group key ({kr}) and binding index ({r}) do not come from the same ResourceBinding', ok_detail='group and index from the same ResourceBinding')
     rep.floor('pushes onto group binding lists', n_push, 1)
+    # no other writer: the collected lists and the group map are only ever grown by the guarded push / the entry of a new group.  Anything that
+    # removes, replaces or adds elements some other way (truncate, retain, dedup, pop, clear, drain, extend, insert, map.remove / retain / pop_*),
+    # anywhere in the crate, changes which bindings and groups the module ends up with after the checks have passed
+    VEC_BAD = {'truncate', 'pop', 'remove', 'swap_remove', 'clear', 'retain', 'retain_mut', 'dedup', 'dedup_by', 'dedup_by_key', 'drain', 'split_off', 'resize', 'resize_with',
+               'extract_if', 'set_len', 'splice', 'append', 'extend', 'extend_from_slice', 'extend_from_within', 'insert', 'fill', 'fill_with', 'split_first_mut', 'take'}
+    MAP_BAD = {'remove', 'remove_entry', 'retain', 'clear', 'pop_first', 'pop_last', 'extract_if', 'split_off', 'append', 'extend', 'first_entry', 'last_entry', 'into_values',
+               'into_keys'}
+    data_tys = set()
+    for gname in G:
+        for _, t in mir.bodies[gname].calls():
+            if cname(t).startswith('std::collections::BTreeMap') and method(cname(t)) in ('entry', 'insert', 'get_mut'):
+                gen = (t.get('generics') or '').strip('[]').split(', ')
+                if len(gen) > 1:
+                    data_tys.add(gen[1].split('<')[0])
+    n_w = 0
+    for name, B in sorted(mir.bodies.items()):
+        for bb, t in B.calls():
+            cn, gen = cname(t), (t.get('generics') or '') + ' ' + (t.get('self_ty') or '')
+            m_ = method(cn)
+            on_list = REC_SHORT in gen and ('std::vec::Vec' in cn or 'core::slice' in cn) and m_ in VEC_BAD
+            on_map = any(d and d in gen for d in data_tys) and ('BTreeMap' in cn or 'btree_map' in cn) and m_ in MAP_BAD
+            if on_list or on_map:
+                n_w += 1
+                rep.bad('C11.R2.no-other-writer', f'writer:{name}:{m_}', B.where(bb),
+                        f'`{m_}` on {"the binding list of a group" if on_list else "the group map"} in {name}: the collected bindings / groups are altered outside the guarded push, so a module can '
+                        f'come out with bindings or groups dropped, merged or added without the duplicate scan')
+    if not n_w:
+        rep.ok('C11.R2.no-other-writer', 'writers', '', f'no removing / replacing / unguarded adding call on Vec<{REC_SHORT}> or the group map ({sorted(data_tys)}) anywhere in the crate')
     # iteration source: all global variables, no adapter
     for gname in G:
         B = mir.bodies[gname]
